@@ -1132,9 +1132,27 @@ func c06InFlight() []Directed {
 				}
 			}(g)
 		}
+		// the writer reads its own writes: once Handle / Remove has returned, the next answer shows the new set, whatever
+		// the readers did in the meantime (a value they cached or republished during the write would show here)
+		own := func(want string) bool {
+			o := mon.Do(r, mon.Req{Method: "OPTIONS", Path: "/h/7"})
+			if got := strings.Join(mon.AllowSet(o.Header.Get("Allow")), ","); got != want {
+				mu.Lock()
+				bad = append(bad, "after the write had returned, Allow of OPTIONS = "+got+", expected "+want)
+				mu.Unlock()
+				return false
+			}
+			return true
+		}
 		for i := 0; i < n; i++ {
 			r.Handle("/h/{id}", env.NewHnd(mon.KRoute, "/h/{id}"), nil, "POST")
+			if i%4 == 0 && !own("GET,HEAD,OPTIONS,POST,TRACE") {
+				break
+			}
 			r.Remove("/h/{id}", "POST")
+			if i%4 == 2 && !own("GET,HEAD,OPTIONS,TRACE") {
+				break
+			}
 		}
 		stop.Store(true)
 		wg.Wait()
